@@ -1122,6 +1122,8 @@ func main() {
 			famSkip(*iters)
 		case "nest":
 			famNest(*thorough)
+		case "prim":
+			famPrim(*thorough)
 		default:
 			fmt.Fprintln(os.Stderr, "unknown family", f)
 			os.Exit(2)
